@@ -4,6 +4,7 @@ C10 — options shape Go types exactly as documented, with documented precedence
 import Genq.Model.Conv
 import Genq.Model.ConvSkel
 import Genq.Extracted.Conv
+import Genq.Model.DirApply
 namespace Genq.Conv
 
 /-- first value that is set -/
@@ -115,3 +116,49 @@ theorem C10_convertType_tie : Extracted.convertTypeSkeleton = ConvSkel.convertTy
 theorem C10_directive_merge_tie : Extracted.directiveMergeSkeleton = ConvSkel.directiveMergeSkeleton := rfl
 
 end Genq
+
+/-! ### which option combinations are accepted at all (Model/DirApply.lean; compared with the generator's
+    accept/reject decision on every case of this check — exhaustively in the thorough tier) -/
+namespace Genq.DirApply
+open Genq.Conv (Dir Kind)
+
+/-- **C10_omitempty_only_on_variables** — `omitempty` (true or false) written on a selected field is refused, whatever
+    else the directive says; on a variable it is refused exactly when the variable's type is non-null -/
+theorem C10_omitempty_only_on_variables (sr op_ : Bool) (node forField op : Dir) (h : validateOp op forField = .ok)
+    (ho : node.omitempty.isSome = true) :
+    (∀ k b hf os, verdict sr op_ (.field k b hf os) node forField op = .omitemptyOnField) ∧
+    (∀ k b fs, verdict sr op_ (.var k true b fs) node forField op = .omitemptyNonNull) := by
+  constructor
+  · intro k b hf os
+    simp [verdict, h, validateNode, ho]
+  · intro k b fs
+    simp [verdict, h, validateNode, ho]
+
+/-- **C10_bind_never_on_operations** — `bind` on a whole operation is refused (unless its `for:` entry is refused first) -/
+theorem C10_bind_never_on_operations (sr op_ : Bool) (t : Target) (node forField op : Dir)
+    (hf : forField.struct.isSome = false) (hf2 : forField.flatten.isSome = false)
+    (hf3 : (forField.typename != "" && bindReal forField.bind) = false) (hb : op.bind ≠ "") :
+    verdict sr op_ t node forField op = .opBind := by
+  have : validateOp op forField = .opBind := by
+    simp [validateOp, hf, hf2, hb]
+    simpa using hf3
+  simp [verdict, this]
+
+/-- **C10_pointer_always_applicable** — directives that set nothing but `pointer` (on the node, in the `for:` entry,
+    on the operation) are accepted on every selected field and on every variable of scalar or enum type -/
+theorem C10_pointer_always_applicable (sr op_ : Bool) (p1 p2 p3 : Option Bool) :
+    (∀ k b hf os, accepts sr op_ (.field k b hf os) { pointer := p1 } { pointer := p2 } { pointer := p3 } = true) ∧
+    (∀ nn b fs, accepts sr op_ (.var .scalar nn b fs) { pointer := p1 } { pointer := p2 } { pointer := p3 } = true) := by
+  constructor
+  · intro k b hf os
+    simp [accepts, verdict, validateOp, validateNode, Conv.merge, Conv.fillString, bindReal]
+  · intro nn b fs
+    simp [accepts, verdict, validateOp, validateNode, Conv.merge, Conv.fillString, bindReal]
+
+-- non-vacuity / documented examples
+example : verdict false false (.field .scalar false false false) { omitempty := some true } {} {} = .omitemptyOnField := by decide
+example : verdict false false (.var .input false false [⟨false, false⟩, ⟨true, false⟩]) {} {} { pointer := some true }
+    = .inputPointerNeedsOmitempty := by decide
+example : accepts true false (.var .input false false [⟨false, false⟩, ⟨true, false⟩]) {} {} { pointer := some true } = true := by decide
+
+end Genq.DirApply
